@@ -32,10 +32,12 @@ EMITTERS = {
     "global_get": ("wasmCWriteGlobalGetExpr", GENERIC), "global_set": ("wasmCWriteGlobalSetExpr", GENERIC),
     "memory_size": ("wasmCWriteMemorySizeExpr", GENERIC), "memory_grow": ("wasmCWriteMemoryGrowExpr", GENERIC),
     "dispatch": ("wasmCWriteFunctionCode", [("nop", ["DISP=0"]), ("drop", ["DISP=1"]), ("unreachable_then_dead", ["DISP=2"]), ("br_then_dead", ["DISP=3"]), ("dead_until_else", ["DISP=4"]), ("return", ["DISP=5"])]),
+    "function_return": ("wasmCWriteFunctionReturn", [("", ["HMAX=6"])]),
     "dead": ("wasmCWriteLoadExpr", [("global_get", ["DEAD_WHICH=0"]), ("global_set", ["DEAD_WHICH=1"]), ("load", ["DEAD_WHICH=2"]), ("store", ["DEAD_WHICH=3"]), ("call", ["DEAD_WHICH=4"]), ("call_indirect", ["DEAD_WHICH=5"]), ("br", ["DEAD_WHICH=6"]), ("br_if", ["DEAD_WHICH=7"]), ("br_table", ["DEAD_WHICH=8"]), ("memory_grow", ["DEAD_WHICH=9"])]),
     "ignored": ("wasmCWriteLocalGetExpr", [("local_get", ["IGN_WHICH=0"]), ("local_set", ["IGN_WHICH=1"]), ("local_tee", ["IGN_WHICH=2"]), ("const", ["IGN_WHICH=3"])]),
 }
-SRC = {"dead": "e_dead.c", "dispatch": "e_dispatch.c", "global_get": "e_more.c", "global_set": "e_more.c", "memory_size": "e_more.c", "memory_grow": "e_more.c"}
+SRC = {"function_return": "e_dispatch.c", "dead": "e_dead.c", "dispatch": "e_dispatch.c", "global_get": "e_more.c", "global_set": "e_more.c", "memory_size": "e_more.c", "memory_grow": "e_more.c"}
+BOUNDED = {"function_return": "operand-stack heights and capacities <= 10 (wasmTypeStackClear loops over the capacity); types symbolic"}
 ALL_VARIANTS_IN_QUICK = {"ignored", "br", "br_if", "dispatch", "dead"}
 EXTRA_FUNCS = {
     "load": ["c.c:wasmCWriteStringMemoryUse"], "store": ["c.c:wasmCWriteStringMemoryUse"],
@@ -70,7 +72,7 @@ def expr_jobs(ctx, which, solver="sat"):
                     continue
                 jobs.append(ejob(ctx, "E.h.%s%s%s" % (nm, suf, ".pretty" if pr else ""), SRC.get(nm, "e_expr.c"), "h_" + nm,
                                  ["c.c:" + fn] + COMMON + EXTRA_FUNCS.get(nm, []), defines=["PRETTY=%d" % pr, "INDENT=%d" % (2 if pr else 0)] + vdefs,
-                                 flags=["--unwind", "24", "--unwinding-assertions"], solver=solver,
+                                 flags=["--unwind", "24", "--unwinding-assertions"], solver=solver, bounded=BOUNDED.get(nm),
                                  info=dict(layer="E", note="symbolic stack height h <= 2^24, symbolic operand and context types; "
                                            "array.c growth enters through its contract (job A.ensure_capacity)")))
     jobs += grow_jobs(ctx, [4])
